@@ -352,7 +352,7 @@ func wrapperFor(b *idp.Builder, rng *rand.Rand, force string) *etree.Element {
 	wrapperNames()
 	name := wrapNames[rng.Intn(len(wrapNames))]
 	if rng.Intn(2) == 0 {
-		name = wrapNames[rng.Intn(9)] // the SAML names half of the time
+		name = wrapNames[rng.Intn(13)] // the SAML names and the non-ASCII / long ones half of the time
 	}
 	if force != "" {
 		name = force
@@ -376,6 +376,8 @@ func wrapperNames() []string {
 		}
 		// ("Response" inside a Response: a parent check by NAME instead of by identity would be fooled)
 		wrapNames = []string{"Extensions", "Advice", "Evidence", "StatusDetail", "Subject", "Conditions", "AttributeValue", "Object", "Response"}
+		// names outside ASCII and long names (a name is echoed in error messages: octets are not characters)
+		wrapNames = append(wrapNames, strings.Repeat("\u5143\u7d20", 11), "\u00c9l\u00e9ment", strings.Repeat("Wrapper", 12), strings.Repeat("\u03c9", 70))
 		for _, l := range SourceLiterals() {
 			ok := len(l) >= 3 && len(l) <= 40
 			for i, r := range l {
@@ -539,10 +541,10 @@ func (Forgery) Run(c *orch.Case) *orch.Outcome {
 	}
 	if wrapped && c.Seed%4 == 0 {
 		base, _ := json.Marshal([]any{o.Res, o.RFlag, o.Assertions, o.Info})
-		names := append([]string{}, wrapperNames()[:9]...)
+		names := append([]string{}, wrapperNames()[:13]...)
 		lrng := rand.New(rand.NewSource(c.Seed))
-		for i := 0; i < 10 && len(wrapperNames()) > 9; i++ {
-			names = append(names, wrapperNames()[9+lrng.Intn(len(wrapperNames())-9)])
+		for i := 0; i < 8 && len(wrapperNames()) > 13; i++ {
+			names = append(names, wrapperNames()[13+lrng.Intn(len(wrapperNames())-13)])
 		}
 		for _, name := range names {
 			d2, _ := BuildForgeryW(&in, c.Seed, claim, name)
